@@ -56,7 +56,7 @@ func runC04(p *Prog, r *Report) {
 	r.Rule("D9-mode-preserved", "a node's mode is the tar entry's full mode")
 	c04FullMode(p, r, "D9-mode-preserved")
 	r.Rule("D10-lookup-normalisation", "paths are normalised by prefix, never by a character set (a lookup finds the entry a listing shows)")
-	cutsetDiscipline(p, r, "D10-lookup-normalisation", imgPkg, "artifact/image/symlink", "artifact/image/unpack", "artifact/image/pathtree")
+	cutsetDiscipline(p, r, "D10-lookup-normalisation", imgPkg, "artifact/image/symlink", "artifact/image/unpack", "artifact/image/pathtree", "artifact/image/whiteout")
 	r.Rule("D11-unpacked-content", "the squashed unpack writes, for every regular entry, the bytes read for that entry")
 	freshContentPerEntry(p, r, "D11-unpacked-content")
 	r.Rule("D12-layer-content", "a layer's regular file is copied from a reader made for that tar entry")
